@@ -22,12 +22,15 @@ type PathElem struct {
 type Ptr struct {
 	Obj  int
 	Path []PathElem
+	// View/Epoch: the pointer was derived from a bytes.Buffer view (Bytes/Next) taken at that modification epoch
+	View, Epoch int
 }
 type StructV struct{ F []Value }
 type ArrayV struct{ E []Value }
 type SliceV struct {
 	Obj           int // 0 = nil
 	Off, Len, Cap *Term
+	View, Epoch   int // see Ptr
 }
 type StringV struct {
 	B     *Bytes
@@ -62,6 +65,7 @@ type Obj struct {
 	E    []Value // kElems
 	M    []MapEntry
 	ET   types.Type // element type (kElems/kBytes), may be nil
+	Epoch int       // kBuffer: number of modifications so far (views taken earlier are stale)
 }
 
 type Frame struct {
@@ -521,6 +525,9 @@ func (e *Engine) load(s *State, p *Ptr, site string) Value {
 	if o == nil {
 		panic(fmt.Sprintf("dangling object %d at %s", p.Obj, site))
 	}
+	if p.View != 0 && s.heap[p.View] != nil && s.heap[p.View].Epoch != p.Epoch {
+		s.notes = unionStr(s.notes, []string{"stale-view-read: a bytes.Buffer view taken before a later buffer modification is read at " + site})
+	}
 	switch o.Kind {
 	case kCell:
 		return navigate(o.Val, p.Path)
@@ -555,6 +562,9 @@ func (e *Engine) store(s *State, p *Ptr, v Value, site string) {
 	}
 	e.access(s, p.Obj, true, site)
 	o := s.heap[p.Obj]
+	if p.View != 0 && s.heap[p.View] != nil && s.heap[p.View].Epoch != p.Epoch {
+		s.notes = unionStr(s.notes, []string{"stale-view-write: a bytes.Buffer view taken before a later buffer modification is written at " + site})
+	}
 	if p.Obj <= e.baseMax {
 		if np, isPtr := v.(*Ptr); isPtr && np.Obj != 0 && s.heap[np.Obj] != nil && s.heap[np.Obj].Kind == kMap {
 			s.trace = append(s.trace, TraceEv{Kind: "replace", Obj: p.Obj, Site: site})
@@ -657,7 +667,7 @@ func (e *Engine) Run(init *State) []*State {
 			if s.dead {
 				break
 			}
-			if e.Steps&1023 == 0 && !e.deadline.IsZero() && time.Now().After(e.deadline) {
+			if e.Steps&15 == 0 && !e.deadline.IsZero() && time.Now().After(e.deadline) {
 				s.cut = "item time budget exceeded"
 			}
 			if s.panicd != "" || s.cut != "" || len(s.frames) == 0 || s.cutDone {
@@ -826,7 +836,7 @@ func (e *Engine) step(s *State) []*State {
 			if !ok {
 				return forks
 			}
-			set(&Ptr{Obj: b.Obj, Path: []PathElem{{Idx: Add(b.Off, idx)}}})
+			set(&Ptr{Obj: b.Obj, Path: []PathElem{{Idx: Add(b.Off, idx)}}, View: b.View, Epoch: b.Epoch})
 			return forks
 		default:
 			panic(fmt.Sprintf("IndexAddr on %T", b))
@@ -1310,7 +1320,7 @@ func (e *Engine) slice(s *State, f *Frame, x *ssa.Slice, set func(Value)) []*Sta
 		if !ok {
 			return forks
 		}
-		set(&SliceV{Obj: b.Obj, Off: Add(b.Off, lo), Len: Sub(hi, lo), Cap: Sub(capT, lo)})
+		set(&SliceV{Obj: b.Obj, Off: Add(b.Off, lo), Len: Sub(hi, lo), Cap: Sub(capT, lo), View: b.View, Epoch: b.Epoch})
 		return forks
 	case *StringV:
 		if mx != nil {
